@@ -529,10 +529,12 @@ type c10branch struct {
 	kind    int // 0 Lock(sink), 1 Combine(sinkA, sinkB), 2 custom core
 	sinks   []*zsim.SimSink
 	failing bool
-	mode    int // 0 write error, 1 short write + error, 2 disk full from call n, 3 sync error, 4 core error
-	errText string
-	core    zapcore.Core
-	custom  *c10core
+	// silentShort: a sink of the branch answers short counts without an error
+	silentShort bool
+	mode        int // 0 write error, 1 short write + error, 2 disk full from call n, 3 sync error, 4 core error
+	errText     string
+	core        zapcore.Core
+	custom      *c10core
 }
 
 type c10core struct {
@@ -627,12 +629,25 @@ func runC10(c *Ctx) {
 				}
 			}
 		}
+		// a destination that takes only part of what it is given and says so
+		// in its count, without an error: it is not judged itself and is no
+		// failure to report, but whatever zap makes of it, the failures of the
+		// other branches are still reported
+		silent := func(s *zsim.SimSink) {
+			if !br.failing && f.Chance(6) {
+				for i := 0; i < 8; i++ {
+					s.WritePlan = append(s.WritePlan, zsim.Outcome{Short: 1 + f.Draw(5)})
+				}
+				br.silentShort = true
+			}
+		}
 		switch br.kind {
 		case 0:
 			s := mk(fmt.Sprintf("b%d", b))
 			if br.failing {
 				setFail(s)
 			}
+			silent(s)
 			br.core = zapcore.NewCore(zapcore.NewJSONEncoder(encCfg()), zapcore.Lock(s), zapcore.DebugLevel)
 		case 1:
 			a, bb := mk(fmt.Sprintf("b%d-0", b)), mk(fmt.Sprintf("b%d-1", b))
@@ -643,6 +658,7 @@ func runC10(c *Ctx) {
 					setFail(bb)
 				}
 			}
+			silent(bb)
 			br.core = zapcore.NewCore(zapcore.NewJSONEncoder(encCfg()), zap.CombineWriteSyncers(a, bb), zapcore.DebugLevel)
 		case 2:
 			br.custom = &c10core{fail: br.failing, errText: br.errText, err: injErr}
@@ -681,6 +697,10 @@ func runC10(c *Ctx) {
 	var bd []string
 	for i, br := range branches {
 		s := []string{"Lock", "Combine", "custom-core"}[br.kind]
+		if br.silentShort {
+			s += "!short-count-without-error"
+			c.MixState(uint64(i)<<8 | 0x40)
+		}
 		if br.failing {
 			s += fmt.Sprintf("!fail(mode %d)", br.mode)
 			c.MixState(uint64(i)<<8 | uint64(br.mode) | 0x80)
